@@ -284,7 +284,11 @@ def fixture():
     for s in SCALARS + ["Date", "Time", "DateTime"]:
         Resolver("Query.o" + s, schema_name=name)(out_resolver(s))
         Resolver("Query.i" + s, schema_name=name)(in_resolver(s))
-    engine = run_async(create_engine(SDL, schema_name=name))
+    extra = []
+    for field, sname, kind, sp, text in sdl_default_fields():
+        extra.append("  %s(v: %s = %s): String" % (field, sname, text))
+        Resolver("Query." + field, schema_name=name)(in_resolver(sname))
+    engine = run_async(create_engine(SDL + "extend type Query {\n%s\n}\n" % "\n".join(extra), schema_name=name))
     _fx["engine"] = engine
     _fx["scalars"] = {s: engine._schema.find_scalar(s) for s in SCALARS + ["Date", "Time", "DateTime"]}
     return _fx
@@ -421,9 +425,57 @@ def law_datetime(name, dt):
 # ------------------------------------------------------------------ driver
 
 
+DT_GRID = [datetime.datetime(1, 1, 1), datetime.datetime(999, 12, 31, 23, 59, 59), datetime.datetime(1000, 1, 1), datetime.datetime(1969, 12, 31, 23, 59, 59),
+           datetime.datetime(1970, 1, 1), datetime.datetime(2000, 2, 29, 12, 0, 0), datetime.datetime(9999, 12, 31, 23, 59, 59), datetime.datetime(33, 4, 3, 15, 0, 9)]
+
+
+def sdl_default_fields():
+    """one echo field per (scalar, natural literal spelling that must be accepted): arg default written in the SDL"""
+    out = []
+    k = 0
+    for name in SCALARS:
+        for kind in NATURAL[name]:
+            for sp in LITERALS[kind]:
+                jv = json_of(kind, sp)
+                if expected_input(name, jv)[0] != MUST:
+                    continue
+                if name == "ID" and kind == "int" and sp.lstrip("-") == "0" and sp != "0":
+                    continue
+                text = sp if kind in ("int", "float") else (json.dumps(sp, ensure_ascii=False) if kind == "string" else ("true" if sp else "false"))
+                out.append(("d%d" % k, name, kind, sp, text))
+                k += 1
+    return out
+
+
+def law_sdl_default(field, name, kind, spelling):
+    """an argument default written in the SDL = the same literal in a query = the same JSON value in a variable"""
+    fx = fixture()
+    spec = {"law": "sdl_default", "scalar": name, "kind": kind, "spelling": spelling, "field": field}
+    want = fx["scalars"][name].coerce_input(json_of(kind, spelling))
+    ctx = {}
+    resp = run_async(fx["engine"].execute("{ %s }" % field, context=ctx))
+    if "errors" in resp or not same(ctx.get("got"), want):
+        raise Violation(spec, "%s default %s written in the SDL: resolver got %r (%s), the variable/literal route gives %r (%s); response %r" % (
+            name, spelling, ctx.get("got"), type(ctx.get("got")).__name__, want, type(want).__name__, resp), tag="sdl_default")
+
+
 def run_grid(stats, index, nworkers):
     vals = grid_values()
     i = 0
+    for field, name, kind, sp, text in sdl_default_fields():
+        i += 1
+        if i % nworkers != index:
+            continue
+        law_sdl_default(field, name, kind, sp)
+        stats.case({"s": name, "d": "sdl_default", "k": kind, "v": sp}, True, ["grid:sdl_default:" + name], {"scalar": name, "direction": "sdl_default", "spelling": sp})
+    for name in ("Date", "Time", "DateTime"):
+        for dt in DT_GRID:
+            i += 1
+            if i % nworkers != index:
+                continue
+            d2 = dt.replace(year=1900, month=1, day=1) if name == "Time" else (dt.replace(hour=0, minute=0, second=0) if name == "Date" else dt)
+            law_datetime(name, d2)
+            stats.case({"s": name, "d": "datetime", "v": d2.isoformat()}, True, ["grid:datetime:" + name])
     for name in SCALARS:
         for v in vals:
             for direction in ("output", "input"):
@@ -490,14 +542,14 @@ def run_worker(seed, tier, index, nworkers):
 
     @hypothesis.seed(seed)
     @core.hyp_settings(max(10, n // 4))
-    @given(st.sampled_from(["Date", "Time", "DateTime"]), st.datetimes(min_value=datetime.datetime(1000, 1, 1), max_value=datetime.datetime(9999, 12, 31)).map(lambda d: d.replace(microsecond=0)))
+    @given(st.sampled_from(["Date", "Time", "DateTime"]), st.datetimes(min_value=datetime.datetime(1, 1, 1), max_value=datetime.datetime(9999, 12, 31)).map(lambda d: d.replace(microsecond=0)))
     def t_dt(name, dt):
         if name == "Time":
             dt = dt.replace(year=1900, month=1, day=1)
         if name == "Date":
             dt = dt.replace(hour=0, minute=0, second=0)
         law_datetime(name, dt)
-        stats.case({"s": name, "d": "datetime", "v": dt.isoformat()}, dt.second == 0 or dt.year < 1970, ["drawn:datetime:" + name])
+        stats.case({"s": name, "d": "datetime", "v": dt.isoformat()}, dt.second == 0 or dt.year < 1970, ["drawn:datetime:" + name] + (["datetime:year<1000"] if dt.year < 1000 else []))
 
     for t in (mk(law_output), mk(law_input), t_lit, t_dt):
         if viol is not None:
@@ -519,6 +571,8 @@ def replay(spec):
         law_input(spec["scalar"], dec(spec["value"]), spec.get("engine", False))
     elif law == "literal":
         law_literal(spec["scalar"], spec["kind"], spec["spelling"], spec.get("engine", False))
+    elif law == "sdl_default":
+        law_sdl_default(spec["field"], spec["scalar"], spec["kind"], spec["spelling"])
     else:
         law_datetime(spec["scalar"], datetime.datetime.fromisoformat(spec["value"]) if "T" in spec["value"] or "-" in spec["value"] else datetime.datetime.strptime(spec["value"], "%H:%M:%S"))
 
